@@ -1033,3 +1033,4 @@ def run(S):
     shared.descent(S)
     shared.key_order(S)
     shared.structure(S)
+    shared.gc_safety(S)
